@@ -462,6 +462,43 @@ func (s *Sim) checkProgress(why string) {
 	}
 	// a prompt answer settles it; otherwise give the UPF ten simulated minutes
 	if answered(2*time.Second) || answered(10*time.Minute) {
+		// ... and periodic reporting is still alive: every period that has a URR
+		// registered (and installed in the data plane) is queried again within two periods
+		reg := s.model.registered()
+		var maxP time.Duration
+		for p, set := range reg {
+			for k := range set {
+				if _, ok := s.kern.rules[k]; !ok {
+					delete(set, k)
+				}
+			}
+			if len(set) > 0 && p > maxP {
+				maxP = p
+			}
+		}
+		if maxP > 0 && !s.model.perioTaint {
+			from := len(s.kern.reqLog)
+			s.mstepLite(func() { s.advance(2*maxP + time.Second) })
+			seen := map[time.Duration]bool{}
+			for _, r := range s.kern.reqLog[from:] {
+				if r.Conn != "ps" || r.Op != "multi" {
+					continue
+				}
+				for p, set := range reg {
+					for _, k := range r.Multi {
+						if set[k] {
+							seen[p] = true
+						}
+					}
+				}
+			}
+			for p, set := range reg {
+				if len(set) > 0 && !seen[p] {
+					s.violate("C18", "progress.periodic", "stalled:periodic-reporting",
+						"period %v has %d URR(s) registered and installed, but no periodic query was made for them in %v of idle time: periodic reports are no longer produced", p, len(set), 2*maxP+time.Second)
+				}
+			}
+		}
 		s.tearing = false
 		s.probe("burst.done", 1)
 		return
@@ -535,6 +572,7 @@ func wedgeSignature(dump string) string {
 
 func (s *Sim) mstepLite(f func()) {
 	s.stepNo++
+	s.stepA.Store(int64(s.stepNo))
 	s.bump()
 	f()
 }
